@@ -545,9 +545,9 @@ def rule_none_matrix(ck):
 
 
 def run(ck):
-    rule_utils(ck)
-    rule_row_acceptance(ck)
+    ck.attempt(rule_utils)
+    ck.attempt(rule_row_acceptance)
     g, h = rule_network(ck)
-    rule_interface(ck, g)
-    rule_defaults(ck)
-    rule_none_matrix(ck)
+    ck.attempt(rule_interface, g)
+    ck.attempt(rule_defaults)
+    ck.attempt(rule_none_matrix)
